@@ -205,7 +205,7 @@ func checkC10(tier string) *Report {
 	rep := NewReport("C10", tier, "exploration")
 	rep.Rule = "every Msg RPC discovered from the registered service descriptors × ~19 non-authority signer strings × (valid body, zero body, all combinations of per-field menus) × 4 states; plus the authority with the valid body. Non-trivial = a (RPC, signer, body) triple whose body would change state if the authority sent it"
 	rep.Assumptions = []string{
-		"messages are handed to the handlers resolved by the application's MsgServiceRouter, with baseapp's per-message rollback emulated (DESIGN §1.3.2); signature verification / ante handlers are outside the check (the property is about the handlers)",
+		"messages are handed to the handlers resolved by the application's MsgServiceRouter, with baseapp's per-message rollback emulated (DESIGN §1.3.2); signature verification / ante handlers are outside that part (the property is about the handlers); a last phase sends every RPC in REAL signed transactions (named and signed by another account; naming the authority but signed by another account; signed by the authority) through the ante handler and baseapp",
 		"an upper-case bech32 spelling of the authority decodes to the authority account and is therefore not in the must-fail signer list",
 	}
 	w, err := NewWorld()
@@ -346,6 +346,11 @@ func checkC10(tier string) *Report {
 		}
 		rep.Sample(map[string]any{"rpc": label, "signer_field": ri.SignerField, "bodies": len(bodies), "signers": len(signers), "states": len(states)})
 	}
+	// transaction level: the same RPCs in real signed transactions through the ante handler and baseapp (loop.go)
+	if err := loopAuthorityCheck(rep, rpcs, valid); err != nil {
+		rep.HarnessError("real transactions: %v", err)
+	}
+	rep.Guard(rep.Outcomes["real-tx-non-authority-refused"] >= 16 && rep.Outcomes["real-tx-authority-succeeded"] >= 7, "real transaction phase vacuous: %v", rep.Outcomes)
 	rep.Guard(rep.Outcomes["authority-succeeded"] >= 8 && rep.Outcomes["non-authority-refused"] > 1000, "outcome classes missing: %v", rep.Outcomes)
 	return rep
 }
